@@ -791,6 +791,9 @@ where
                     Symbol::Rule(s_ridx) => {
                         st.push((pidx, sidx + 1));
                         st.push((cheapest_prod(*s_ridx), 0));
+                        // The rest of this production is dealt with when we pop it back off the
+                        // stack (i.e. after the rule we've just pushed has been expanded).
+                        break;
                     }
                     Symbol::Token(s_tidx) => {
                         s.push(*s_tidx);
